@@ -160,7 +160,15 @@ class RemoteFamily(common.Family):
       ops = []
       for _ in range(rng.randrange(1, 5)):
         kind = rng.choice(['eval', 'eval', 'eval', 'async_eval', 'robj',
-                           'iter', 'queue'])
+                           'iter', 'queue', 'slow_raise'])
+        if kind == 'slow_raise':
+          # an evaluation that takes a while and then fails with an
+          # application error: a shutdown request can arrive in between
+          ops.append({'op': kind, 'secs': rng.choice([0.3, 0.5, 1.0]),
+                      'kind': rng.choice(['ValueError', 'KeyError',
+                                          'ZeroDivisionError', 'CustomError']),
+                      'msg': f's{rng.randrange(100)}'})
+          continue
         if kind in ('eval', 'async_eval'):
           if rng.random() < 0.2:
             # values that are falsy / not integers, returned as they are
@@ -246,8 +254,14 @@ class RemoteFamily(common.Family):
     def outcome(fn, what='step'):  # pylint: disable=redefined-outer-name
       return globals()['outcome'](lambda: timed(what, fn))
 
-    def run_op(op):
+    L.PROBE['log'] = []
+    L.PROBE['shutdown'] = lambda: bool(cl.servers['w0']._shutdown_requested)  # pylint: disable=protected-access
+
+    def run_op(op, tag=''):
       kind = op['op']
+      if kind == 'slow_raise':
+        e = lazy_fns.trace(L.slow_boom)(op['secs'], op['kind'], op['msg'], tag)
+        return outcome(lambda: client.get_result(e), 'slow_raise')
       if kind == 'eval':
         e = lazy(op['expr'])
         if op['cache'] and hasattr(e, 'set_'):
@@ -318,7 +332,7 @@ class RemoteFamily(common.Family):
 
     def client_thread(c):
       for j, op in enumerate(cfg['clients'][c]):
-        results[c][j] = run_op(op)
+        results[c][j] = run_op(op, f'{c}.{j}')
       if shared_it is not None:
         try:
           while True:
@@ -360,7 +374,9 @@ class RemoteFamily(common.Family):
               and False]
     del leaked
     cl.stop_all()
+    L.PROBE['shutdown'] = None
     return {'results': results, 'shared': shared, 'n_calls': courier.NET.n_calls,
+            'slow_log': {t: f for t, f in L.PROBE['log']},
             'slowest': slowest}
 
   # ------------------------------------------------------------------------
@@ -387,8 +403,26 @@ class RemoteFamily(common.Family):
     for c, ops in enumerate(cfg['clients']):
       for j, op in enumerate(ops):
         got = obs['results'][c][j]
-        exp = expected(op)
         kind = op['op']
+        if kind == 'slow_raise':
+          exp = ['exc', op['kind'], op['msg']]
+          if op['kind'] == 'KeyError':
+            exp[2] = repr(op['msg'])
+          flag = (obs.get('slow_log') or {}).get(f'{c}.{j}')
+          if flag:
+            # the server had been asked to shut down when the evaluation
+            # failed: the answer must be the retriable error, not the raw one
+            sim_probe = 'probe:failure_while_shutting_down'
+            del sim_probe
+            if not retriable(got):
+              res.append(v('shutdown', f'raw-exception-while-shutting-down:{fault}',
+                           f"{op}: the shutdown had been requested when the "
+                           f"evaluation raised, the client got {got}"))
+          elif got != exp and not retriable(got):
+            res.append(v('equivalence', f'slow_raise:exception:{fault}',
+                         f'{op}: remote {got} != local {exp}'))
+          continue
+        exp = expected(op)
         if kind in ('eval', 'async_eval'):
           if got != exp and not retriable(got):
             what = 'value' if got and got[0] == 'ok' else 'exception'
@@ -482,6 +516,8 @@ class RemoteFamily(common.Family):
     p = []
     if cfg['fault'] != 'none' and out['counters'].get('net:deadline_exceeded'):
       p.append('probe:deadline_exceeded_under_shutdown')
+    if any((out.get('value') or {}).get('slow_log', {}).values()):
+      p.append('probe:evaluation_failed_while_shutting_down')
     return p
 
 
